@@ -202,6 +202,46 @@ def regen_gen():
     return errs
 
 
+def translator_outputs(f):
+    """the Gen files a translator writes (named in its source text)"""
+    try:
+        return set(re.findall(r'Gen[A-Za-z0-9]*\.v', open(os.path.join(VERIF, 'translators', f)).read()))
+    except OSError:
+        return set()
+
+
+def gen_deps(module):
+    """Gen/*.v files that Properties/<module>.vo depends on, transitively (from coq_makefile's dependency file);
+    None when the dependency file cannot be read (then every translator is considered relevant)"""
+    try:
+        txt = open(os.path.join(COQ, '.Makefile.d')).read()
+    except OSError:
+        return None
+    deps = {}
+    for line in txt.split('\n'):
+        if ':' not in line:
+            continue
+        lhs, rhs = line.split(':', 1)
+        for t in lhs.split():
+            if t.endswith('.vo'):
+                deps.setdefault(t, set()).update(x for x in rhs.split() if x.endswith(('.vo', '.v')))
+    start = 'Properties/%s.vo' % module
+    if start not in deps:
+        return None
+    seen = set(); todo = [start]; gens = set()
+    while todo:
+        t = todo.pop()
+        if t in seen:
+            continue
+        seen.add(t)
+        for d in deps.get(t, ()):
+            if d.startswith('Gen/'):
+                gens.add(os.path.basename(d).replace('.vo', '.v'))
+            if d.endswith('.vo'):
+                todo.append(d)
+    return gens
+
+
 def write_if_changed(path, text):
     os.makedirs(os.path.dirname(path), exist_ok=True)
     if os.path.exists(path) and open(path).read() == text:
@@ -346,10 +386,17 @@ def proof_phase(ctx, module=None, extra_targets=()):
     # (possibly with another VERIF_REPO) must not regenerate it in the middle of this proof phase
     with Lock('coq'):
         errs = regen_gen()
-        for f, out in errs:
-            ctx.broken.append('translator %s failed: %s' % (f, out.strip().split('\n')[-1][:200]))
         targets = ['Properties/%s.vo' % module] + list(extra_targets)
         ok, failed, out = coq_make(targets, locked=True)
+        # a translator that can no longer read the source is a broken obligation only for the properties whose theorems
+        # depend on the file it generates
+        relevant = gen_deps(module)
+        for f, tout in errs:
+            outs = translator_outputs(f)
+            if relevant is None or not outs or (outs & relevant):
+                ctx.broken.append('translator %s failed: %s' % (f, tout.strip().split('\n')[-1][:200]))
+            else:
+                ctx.notes.append('translator %s failed but %s does not depend on %s' % (f, module, sorted(outs)))
         ctx.make_log_tail = out[-3000:]
         names = theorem_names(vfile) if os.path.exists(vfile) else []
         ctx.obligations = names
